@@ -1,4 +1,4 @@
-//@@ unit props=C02,C16,C17,C20,C14,C10,C06
+//@@ unit props=C02,C16,C17,C20,C14,C10,C06 rlimit=300
 // Unit xlswb: the record dispatch `Xls::parse_workbook` of src/xls.rs (verbatim text, one 220-line function).
 //
 // What is under contract here is the WIRING: which record id reaches which record walker, with which arguments, in which order the
@@ -398,6 +398,13 @@ pub open spec fn any_fp(rs: Seq<RecV>) -> bool { exists|i: int| 0 <= i < rs.len(
 
 pub open spec fn names_of(s: Seq<(usize, Sheet)>) -> Seq<(usize, String)> { Seq::new(s.len(), |i: int| (s[i].0, s[i].1.name)) }
 pub open spec fn sheets_of(s: Seq<(usize, Sheet)>) -> Seq<Sheet> { Seq::new(s.len(), |i: int| s[i].1) }
+proof fn lemma_sheets_push(s: Seq<(usize, Sheet)>, x: (usize, Sheet))
+    ensures names_of(s.push(x)) == names_of(s).push((x.0, x.1.name)), sheets_of(s.push(x)) == sheets_of(s).push(x.1),
+{
+    assert(names_of(s.push(x)) =~= names_of(s).push((x.0, x.1.name)));
+    assert(sheets_of(s.push(x)) =~= sheets_of(s).push(x.1));
+}
+pub open spec fn fmts_eq(a: Map<u16, CellFormat>, b: Map<u16, CellFormat>) -> bool { a == b }
 /// the format of an XF: the custom FORMAT record with its ifmt if there is one, else the built-in format of that number
 pub open spec fn resolve_fmt(fmts: Map<u16, CellFormat>, ifmt: u16) -> CellFormat { if fmts.contains_key(ifmt) { fmts[ifmt] } else { builtin_fmt(ifmt) } }
 pub open spec fn resolve_all(fmts: Map<u16, CellFormat>, xfs: Seq<u16>) -> Seq<CellFormat> { Seq::new(xfs.len(), |i: int| resolve_fmt(fmts, xfs[i])) }
@@ -486,7 +493,7 @@ pub open spec fn fm(fs: Seq<Cell<String>>, abs: Seq<FAbs>) -> bool {
 }
 
 /// the substream a BoundSheet8 position points to ([MS-XLS] 2.4.28 lbPlyPos: stream position of the sheet's BOF record)
-pub open spec fn sub_at(stream: Seq<u8>, pos: usize) -> Seq<u8> { if pos <= stream.len() { stream.skip(pos as int) } else { Seq::empty() } }
+pub open spec fn sub_at(stream: Seq<u8>, pos: usize) -> Seq<u8> { stream.subrange(pos as int, stream.len() as int) }
 /// which substream is stored under which sheet name (a later BoundSheet8 with the same name replaces an earlier one)
 pub open spec fn model(list: Seq<(usize, String)>, stream: Seq<u8>) -> Map<String, Seq<u8>>
     decreases list.len()
@@ -533,12 +540,13 @@ pub open spec fn codepage_known(forced: Option<u16>) -> bool {
 spec fn g_init(forced: Option<u16>) -> GS {
     GS { enc: codepage_enc((match forced { Some(c) => c, None => 1200u16 }) as int)->Some_0, biff: Biff::Biff8, sheets: Seq::empty(), fmts: Map::empty(), xfs: Seq::empty(), strings: Seq::empty() }
 }
-spec fn g_of(s: Seq<u8>, forced: Option<u16>) -> GS { g_fold(recs(s), g_init(forced), forced) }
+
+/// the meaning of the globals substream of the workbook stream `s` under the `force_codepage` option
+spec fn gsem(s: Seq<u8>, forced: Option<u16>) -> GS { g_fold(recs(s), g_init(forced), forced) }
+pub open spec fn name_views(list: Seq<(usize, String)>) -> Seq<Seq<char>> { Seq::new(list.len(), |i: int| list[i].1@) }
 
 //@@ impl src/xls.rs Xls nth=1
-#[verifier::loop_isolation(false)]
-#[verifier::allow_complex_invariants]
-//@@ fn src/xls.rs Xls::parse_workbook props=C02,C16,C17,C20,C14 entry ret=res r4
+//@@ fn src/xls.rs Xls::parse_workbook props=C02,C16,C17,C20,C14 entry ret=res r4 mutparams
 //@@ r6 0
 //@@ r6 2
 //@@ replace /let stream = (cfb\s*\.get_stream\([^;]*?\))\s*\.or_else\(\|_\|\s*([^;]*)\)\?;/ Verus rejects closures that capture `&mut` variables (cfb, reader); `a.or_else(|_| b)` is by definition `match a { Ok(v) => Ok(v), Err(_) => b }` (core::result)
@@ -546,18 +554,33 @@ let stream = (match \g<1> { Ok(__v) => Ok(__v), Err(_) => \g<2> })?;
 //@@ sig
     ensures
         //# C20.filepass_is_password_error
-        wb_stream(cfb, reader) matches Some(s) && fp(recs(s)) && codepage_known(old(self).options.force_codepage) ==> res matches Err(XlsError::Password),
+        wb_stream(__p_cfb, __p_reader) matches Some(s) && fp(recs(s)) && codepage_known(old(self).options.force_codepage) ==> res matches Err(XlsError::Password),
         //# C20.password_only_if_filepass
-        res matches Err(XlsError::Password) ==> wb_stream(cfb, reader) matches Some(s) && any_fp(recs(s)),
+        res matches Err(XlsError::Password) ==> wb_stream(__p_cfb, __p_reader) matches Some(s) && any_fp(recs(s)),
         //# C16.workbook_stream_missing_is_error
-        wb_stream(cfb, reader) is None ==> res is Err,
+        wb_stream(__p_cfb, __p_reader) is None ==> res is Err,
+        //# C16.sheets_in_boundsheet_order
+        res is Ok ==> (wb_stream(__p_cfb, __p_reader) matches Some(s) && final(self).metadata.sheets@ == old(self).metadata.sheets@ + sheets_of(gsem(s, old(self).options.force_codepage).sheets)),
+        //# C16.date1904_flag
+        res is Ok ==> (wb_stream(__p_cfb, __p_reader) matches Some(s) && (d1904_legal(recs(s)) ==> final(self).is_1904 == (old(self).is_1904 || has_1904(recs(s))))),
+        //# C10,C16.xf_formats_resolved
+        res is Ok ==> (wb_stream(__p_cfb, __p_reader) matches Some(s) && final(self).formats@ == resolve_all(gsem(s, old(self).options.force_codepage).fmts, gsem(s, old(self).options.force_codepage).xfs)),
+        //# C16.one_entry_per_sheet_name
+        res is Ok ==> (wb_stream(__p_cfb, __p_reader) matches Some(s) && sheets_dom(final(self).sheets@, names_of(gsem(s, old(self).options.force_codepage).sheets), s)),
         //# C17.merge_regions_per_sheet
-        res is Ok ==> (wb_stream(cfb, reader) matches Some(s) && sheets_merges(final(self).sheets@, names_of(g_of(s, old(self).options.force_codepage).sheets), s)),
+        res is Ok ==> (wb_stream(__p_cfb, __p_reader) matches Some(s) && sheets_merges(final(self).sheets@, names_of(gsem(s, old(self).options.force_codepage).sheets), s)),
+        //# C02,C10,C16.cells_per_sheet
+        res is Ok ==> (wb_stream(__p_cfb, __p_reader) matches Some(s) && sheets_cells(final(self).sheets@, names_of(gsem(s, old(self).options.force_codepage).sheets), s,
+            CCtx { formats: final(self).formats@, is_1904: final(self).is_1904, strings: gsem(s, old(self).options.force_codepage).strings, enc: gsem(s, old(self).options.force_codepage).enc, biff: gsem(s, old(self).options.force_codepage).biff })),
+        //# C14.formulas_per_sheet
+        res is Ok ==> (wb_stream(__p_cfb, __p_reader) matches Some(s) && exists|dn: Seq<(String, String)>, xt: Seq<Xti>|
+            #[trigger] sheets_formulas(final(self).sheets@, names_of(gsem(s, old(self).options.force_codepage).sheets), s, FCtx { names: name_views(names_of(gsem(s, old(self).options.force_codepage).sheets)), dn: dn, xtis: xt, enc: gsem(s, old(self).options.force_codepage).enc })
+            && final(self).metadata.names@ == dn),
 //@@ body
     broadcast use axiom_from_cfb;
 //@@ before /let mut sheet_names = /
     let ghost s0 = stream@;
-    proof { assert(wb_stream(cfb, reader) == Some(s0)); }
+    proof { assert(wb_stream(__p_cfb, __p_reader) == Some(s0)); }
 //@@ before /\{\s*let wb = /
     let ghost forced = self.options.force_codepage;
     let ghost g0 = GS { enc: encoding, biff: Biff::Biff8, sheets: Seq::empty(), fmts: Map::empty(), xfs: Seq::empty(), strings: Seq::empty() };
@@ -572,12 +595,28 @@ let stream = (match \g<1> { Ok(__v) => Ok(__v), Err(_) => \g<2> })?;
                     fp(recs(s0)) ==> fp(recs(__it0.s())),
                 invariant
                     cur == __it0.s(),
+                    wb_stream(__p_cfb, __p_reader) == Some(s0),
                     self.options.force_codepage == forced,
+                    //# C16.encoding_and_biff_in_force
+                    g_fold(done, g0, forced).enc == encoding && g_fold(done, g0, forced).biff == biff,
+                    //# C16.sheets_in_boundsheet_order
+                    self.metadata.sheets@ == ms0 + sheets_of(g_fold(done, g0, forced).sheets),
+                    //# C16.sheet_positions_and_names
+                    sheet_names@ == names_of(g_fold(done, g0, forced).sheets),
+                    //# C10.format_records_collected
+                    fmts_eq(formats@, g_fold(done, g0, forced).fmts),
+                    //# C10.xf_records_collected
+                    xfs@ == g_fold(done, g0, forced).xfs,
+                    //# C02.sst_wired
+                    strings@ == g_fold(done, g0, forced).strings,
+                    //# C16.date1904_flag
+                    d1904_legal(done) ==> self.is_1904 == (d0 || has_1904(done)),
                 ensures
                     recs(s0) == done,
                     !fp(recs(s0)),
                 decreases __it0.s().len(),
 //@@ after /let mut r = record\?;/
+                broadcast use axiom_from_cfb;
                 let ghost v = r.v();
                 let ghost done_in = done;
                 proof {
@@ -589,16 +628,64 @@ let stream = (match \g<1> { Ok(__v) => Ok(__v), Err(_) => \g<2> })?;
                         assert(recs(s0)[done.len() - 1] == v);
                         assert(recs(cur)[0] == v);
                         assert(recs(cur).skip(1) =~= recs(__it0.s()));
+                        lemma_legal_push(done_in, v);
+                        assert(g_fold(done, g0, forced) == g_step(g_fold(done_in, g0, forced), v, forced));
+                        lemma_sheets_push(g_fold(done_in, g0, forced).sheets, sheet_of(v, encoding, biff)->Some_0);
                     }
                     cur = __it0.s();
                 }
+//@@ replace /self\.formats = xfs\s*\.into_iter\(\)\s*\.map\(\|fmt\| (match formats\.get\(&fmt\) \{.*?\n\s*\})\)\s*\.collect\(\);/ Verus limitation (probed, minimal repro in the report): vstd's specification of Iterator::map + collect is not applied to a closure inside a GENERIC impl (`impl<RS: Read + Seek>`), although the same statement verifies in a non-generic function. `v.into_iter().map(|x| E).collect::<Vec<_>>()` is rewritten to its documented meaning (core::iter::Map, FromIterator for Vec): a new Vec holding E for every element of v in order. The closure body E is re-inserted verbatim (\g<1>).
+self.formats = { let ghost __xs = xfs@; let ghost __fm = formats@; let mut __out: Vec<CellFormat> = Vec::new();
+            for fmt in __itx: xfs
+                invariant
+                    __itx.seq() == __xs, __fm == formats@,
+                    //# C10,C16.xf_formats_resolved
+                    __out@ == resolve_all(__fm, __xs.take(__itx.index@ as int)),
+            {
+                let ghost __k = __itx.index@ as int;
+                __out.push(\g<1>);
+                proof { assert(__xs.take(__k + 1) =~= __xs.take(__k).push(__xs[__k])); assert(__out@ =~= resolve_all(__fm, __xs.take(__k + 1))); }
+            }
+            proof { assert(__xs.take(__xs.len() as int) =~= __xs); }
+            __out };
+//@@ replace /let fmla_sheet_names = sheet_names\s*\.iter\(\)\s*\.map\(\|\(_, n\)\| (n\.clone\(\))\)\s*\.collect::<Vec<_>>\(\);/ same Verus limitation and the same rewrite of `.iter().map(|(_, n)| E).collect::<Vec<_>>()`; E (`n.clone()`) is re-inserted verbatim (\g<1>)
+let fmla_sheet_names = { let mut __out: Vec<String> = Vec::new();
+            for __e in __ity: sheet_names.iter()
+                invariant
+                    __ity.seq().len() == sheet_names@.len(),
+                    forall|i: int| 0 <= i < sheet_names@.len() ==> *(#[trigger] __ity.seq()[i]) == sheet_names@[i],
+                    //# C14.sheet_names_for_3d_references
+                    sviews(__out@) == name_views(sheet_names@.take(__ity.index@ as int)),
+            {
+                let ghost __k = __ity.index@ as int;
+                let (_, n) = __e;
+                let ghost __o0 = __out@;
+                __out.push(\g<1>);
+                proof {
+                    assert(*__e == sheet_names@[__k]);
+                    assert(__out@.last()@ == sheet_names@[__k].1@);
+                    assert(sheet_names@.take(__k + 1) =~= sheet_names@.take(__k).push(sheet_names@[__k]));
+                    assert forall|i: int| 0 <= i <= __k implies sviews(__out@)[i] == name_views(sheet_names@.take(__k + 1))[i] by {
+                        if i < __k { assert(sviews(__o0)[i] == name_views(sheet_names@.take(__k))[i]); assert(__out@[i] == __o0[i]); }
+                    }
+                    assert(sviews(__out@) =~= name_views(sheet_names@.take(__k + 1)));
+                }
+            }
+            proof { assert(sheet_names@.take(sheet_names@.len() as int) =~= sheet_names@); }
+            __out };
+//@@ before /self\.formats = xfs/
+        let ghost xfs0 = xfs@;
 //@@ before /for \(pos, name\) in /
+        proof { assert(sviews(fmla_sheet_names@) =~= name_views(sheet_names@)); }
         let ghost names0 = sheet_names@;
         let ghost cc = CCtx { formats: self.formats@, is_1904: self.is_1904, strings: strings@, enc: encoding, biff: biff };
         let ghost fc = FCtx { names: sviews(fmla_sheet_names@), dn: defined_names@, xtis: xtis@, enc: encoding };
 //@@ loop 1 it
                 invariant
                     it.seq() == names0,
+                    wb_stream(__p_cfb, __p_reader) == Some(s0), !fp(recs(s0)), s0 == stream@,
+                    cc == (CCtx { formats: self.formats@, is_1904: self.is_1904, strings: strings@, enc: encoding, biff: biff }),
+                    fc == (FCtx { names: sviews(fmla_sheet_names@), dn: defined_names@, xtis: xtis@, enc: encoding }),
                     sheets_dom(sheets@, names0.take(it.index@ as int), s0),
                     //# C17.merge_regions_stored_under_sheet_name
                     sheets_merges(sheets@, names0.take(it.index@ as int), s0),
@@ -611,12 +698,15 @@ let stream = (match \g<1> { Ok(__v) => Ok(__v), Err(_) => \g<2> })?;
             let ghost sub = sh@;
             let ghost mut sdone: Seq<RecV> = Seq::empty();
             let ghost mut scur: Seq<u8> = sub;
-            proof { assert(names0[k] == (pos, name)); assert(sub == sub_at(s0, pos)); }
+            proof { assert(names0[k] == (pos, name)); assert(sub =~= sub_at(s0, pos)); }
 //@@ loop 2
                 invariant_except_break
                     recs(sub) == sdone + recs(__it2.s()),
                 invariant
                     scur == __it2.s(),
+                    wb_stream(__p_cfb, __p_reader) == Some(s0), !fp(recs(s0)),
+                    cc == (CCtx { formats: self.formats@, is_1904: self.is_1904, strings: strings@, enc: encoding, biff: biff }),
+                    fc == (FCtx { names: sviews(fmla_sheet_names@), dn: defined_names@, xtis: xtis@, enc: encoding }),
                     //# C17.merge_regions_appended
                     merge_legal(sdone) ==> merge_cells@ == merges_of(sdone),
                     //# C02.dispatch_cells
@@ -671,6 +761,15 @@ let stream = (match \g<1> { Ok(__v) => Ok(__v), Err(_) => \g<2> })?;
                     if n != name { assert(m0.contains_key(n)); assert(sheets@[n] == sheets_in[n]); }
                 }
             }
+//@@ before /let defined_names = defined_names/
+        proof { assert(self.formats@ == resolve_all(formats@, xfs0)); }
+//@@ before /self\.sheets = sheets;/
+        proof {
+            assert(names0.take(names0.len() as int) =~= names0);
+            assert(g0 == g_init(forced));
+            assert(recs(s0) == done);
+            assert(sheets_formulas(sheets@, names0, s0, fc));
+        }
 //@@ end
 //@@ endimpl
 
